@@ -1,9 +1,10 @@
 (* Extraction of the executable models of C07 (ExtrOcamlBasic only, no Extract Constant). *)
 From Coq Require Import ZArith List Extraction ExtrOcamlBasic.
-From C07 Require TableSpec MultiHash IndexModel Gen_Segments.
+From C07 Require TableSpec MultiHash IndexModel Gen_Segments SelectionModel.
 Separate Extraction
   TableSpec.step TableSpec.empty_table TableSpec.select TableSpec.find_by_key TableSpec.project
   TableSpec.sorted_projection TableSpec.lower_bound_count TableSpec.upper_bound_count TableSpec.natlist_eqb
+  SelectionModel.ub_bisect SelectionModel.lower_pred SelectionModel.upper_pred
   Gen_Segments.GetItemCount Gen_Segments.GetSegItemIndexes
   MultiHash.pv_add MultiHash.accept_remove MultiHash.filter_group
   IndexModel.empty_istate IndexModel.add_raw IndexModel.remove_raw IndexModel.update_raw IndexModel.update_col
